@@ -107,7 +107,7 @@ Definition run (case : list Z) : list Z :=
    - latest_rtt = the last sample (at least 1 us);
    - min_rtt = the minimum of the samples since the estimator last (re)started (RFC 9002 5.2 lets
      persistent congestion restart it; an implementation that does not restart is accepted too);
-   - smoothed_rtt within [min sample - 56 ns, max sample] (56 ns = proved bound of the divide-first
+   - smoothed_rtt within [min sample - 49 ns, max sample] (49 ns = proved bound of the divide-first
      truncation, below the estimator's 1 us resolution); before any sample all three equal the initial RTT;
    - pto_period >= 1 ms and pto_period(2b) = 2 * pto_period(b) for b >= 1. *)
 Record jst := { seen : bool; gmin : N; gmax : N; cmin : N; pend : bool; lastv : N }.
@@ -124,7 +124,7 @@ Definition jstep (j : jst) (c b : Z) : jst :=
     {| seen := seen j; gmin := gmin j; gmax := gmax j; cmin := cmin j; pend := true; lastv := lastv j |}
   else j.
 
-Definition slack : N := 56.
+Definition slack : N := 49.
 
 Definition jcheck (j : jst) (init : N) (bo : Z) (o : list Z) : bool :=
   match o with
